@@ -3,7 +3,7 @@
    explicitly ranking and counting; class forms vs the definition on ALL data seen.
    Statements only; proofs in Proofs/RankingP.v.  "tie_free" is the property's own proviso for the
    retrieval metrics (torch.topk leaves the order of equal scores unspecified). *)
-From Coq Require Import ZArith List Bool QArith Qcanon Permutation Lia.
+From Coq Require Import ZArith List Bool QArith Qcanon Permutation Lia String.
 From TE Require Import Base.Val Base.Nd Base.Xq Algebra.Metric Algebra.MergeTree Models.Ranking Proofs.RankingP.
 Import ListNotations.
 Open Scope nat_scope.
@@ -112,6 +112,16 @@ Proof. exact ctr_fn_spec. Qed.
 Theorem weighted_calibration_spec :
   forall w i xs, wdot w i xs = rk_sumQ (map2 Qcmult (weights_of w i xs) xs).
 Proof. exact wdot_spec. Qed.
+(* class compute(): per-task IEEE quotient of the accumulated sums unless nothing was accumulated *)
+Theorem weighted_calibration_class_value :
+  forall nt s, wc_nothing s = false -> wc_gamma nt s = map2 qdivx (nlist (nget 0 s)) (nlist (nget 1 s)).
+Proof. exact wc_gamma_value. Qed.
+Theorem weighted_calibration_class_nothing_accumulated_empty :
+  forall nt s, wc_nothing s = true -> wc_gamma nt s = [].
+Proof. exact wc_gamma_nothing. Qed.
+Example weighted_calibration_zero_task_example :   (* task 0 has target sum 0, task 1 does not: [inf; 1/2] *)
+  map xq_val (wc_gamma 2 (Arr [nvec [mkq 1 1; mkq 1 1]; nvec [mkq 0 1; mkq 2 1]])) = [VT "pinf"%string []; VQ 1 2].
+Proof. vm_compute. reflexivity. Qed.
 Theorem collisions_spec_thm : forall l, collisions_fn l = collisions_spec l.
 Proof. exact collisions_fn_spec. Qed.
 Theorem frequency_spec :
@@ -158,5 +168,7 @@ Print Assumptions retrieval_recall_class_refuted.
 Print Assumptions retrieval_recall_pruned_pos_refuted.
 Print Assumptions ctr_spec.
 Print Assumptions weighted_calibration_spec.
+Print Assumptions weighted_calibration_class_value.
+Print Assumptions weighted_calibration_class_nothing_accumulated_empty.
 Print Assumptions collisions_spec_thm.
 Print Assumptions frequency_spec.
